@@ -58,7 +58,7 @@ PROPS = {
                 assumptions=SHIELD["assumptions"] + [MINT_ASSUME, REIMB_ASSUME]),
     "C03": dict(SHIELD, lean=["Shentu.Props.C03a", "Shentu.Props.C03b", "Shentu.Props.ShieldTie"], engines=SHIELD["engines"] + [REIMB],
                 assumptions=SHIELD["assumptions"] + [REIMB_ASSUME]),
-    "C04": dict(SHIELD, lean=["Shentu.Props.C04", "Shentu.Props.C04b", "Shentu.Props.C04c", "Shentu.Props.C04r", "Shentu.Props.C09q", "Shentu.Props.ShieldTie"],
+    "C04": dict(SHIELD, lean=["Shentu.Props.C04", "Shentu.Props.C04H", "Shentu.Props.C04b", "Shentu.Props.C04c", "Shentu.Props.C04r", "Shentu.Props.C09q", "Shentu.Props.ShieldTie"],
                 engines=SHIELD["engines"] + [chain("payout", 64, 640, ops=120, tops=200), UBDQ, REIMB],
                 assumptions=SHIELD["assumptions"] + [UBDQ_ASSUME, REIMB_ASSUME,
         "'taken from its bonded or unbonding stake': in the shield model the coins move from the staking pools in one step; how the code takes them (split, pro-rata loop, shares rounded up, unbonding entries) is Model/Payout.lean, run against the real keeper's MakePayoutByProviderDelegations by the engine 'payout' on states reached by shield histories, after random slashes and undelegations in a discarded cache context"]),
